@@ -423,7 +423,9 @@ func genWire(seed uint64, tier, mode string) *Script {
 
 // ---------------------------------------------------------------- ops
 
-func (w *simWorld) wirePrefix(n int) string { return fmt.Sprintf("10.%d.%d.0/24", 100+(n>>8)%50, n&0xff) }
+func (w *simWorld) wirePrefix(n int) string {
+	return fmt.Sprintf("10.%d.%d.0/24", 100+(n>>8)%50, n&0xff)
+}
 
 func expectedAction(f *wireFault, cfg *PeerCfg) int {
 	if isIBGPKind(cfg.Kind) {
